@@ -89,30 +89,52 @@ theorem merge_eval (env : Env V) (a b : Expr) (da db : Bool) :
 /-! ### measured parameters over histories -/
 
 /-- **segmentation is invisible**: running any list of program segments on a fresh engine —
-whatever their Programs' RegRefs held before (`own`) — applies the operations with the same
-parameter values, and raises the same error at the same place, as running the concatenated
-commands as one program -/
-theorem segments_invisible (free : String → Option V) (segs : List (Regs V × List (Cmd V))) :
-    runSegs free {} segs = runCmds free Regs.empty (segs.flatMap (·.2)) :=
-  runSegs_fresh free segs
+whatever the later Programs' RegRefs held before (`own` of the later segments) — applies the
+operations with the same parameter values, and raises the same error at the same place, as running
+the concatenated commands as one program in the register of the first Program -/
+theorem segments_invisible (free : String → Option V) (own : Regs V) (cmds : List (Cmd V))
+    (rest : List (Regs V × List (Cmd V))) :
+    runSegs free {} ((own, cmds) :: rest) = runCmds free own (((own, cmds) :: rest).flatMap (·.2)) :=
+  runSegs_fresh free own cmds rest
 
-/-- **latest outcome**: after any history of measure / re-prepare / use / re-measure over any
-number of segments that ran without error, an operation whose parameter is the measured parameter
-of subsystem `m` — placed in a further segment — is applied with the most recent outcome of `m`
-itself, and raises `ParameterError` iff `m` has never been measured -/
-theorem latest_outcome (free : String → Option V) (segs : List (Regs V × List (Cmd V)))
-    (own r : Regs V) (m : Nat) (h : (runSegs free {} segs).fin = .ok r) :
-    runSegs free {} (segs ++ [(own, [.use (.meas m)])]) =
-      (match lastOutcome m (segs.flatMap (·.2)) with
+/- Full statement wanted (**latest outcome**): for EVERY list of segments `segs` that ran without
+   error on a fresh engine, an operation whose parameter is the measured parameter of subsystem `m`,
+   placed in a further segment, is applied with the most recent outcome of `m` itself and raises
+   `ParameterError` iff `m` has never been measured:
+
+     (runSegs free {} segs).fin = .ok r →
+     runSegs free {} (segs ++ [(own', [.use (.meas m)])]) =
+       match lastOutcome m (segs.flatMap (·.2)) with
        | some v => ⟨(runSegs free {} segs).trace ++ [v], .ok r⟩
-       | none => ⟨(runSegs free {} segs).trace, .error (.unmeasured m)⟩) := by
+       | none => ⟨(runSegs free {} segs).trace, .error (.unmeasured m)⟩
+
+   It is FALSE for the code when the RegRefs of the FIRST Program of the computation still hold
+   values (known finding `…-last-segment-on-fresh-engine`: an existing test relies on values put
+   into the RegRefs by hand before the run, so the engine cannot clear them).  Proved under exactly
+   that hypothesis; the RegRefs of all later Programs are arbitrary. -/
+
+/-- **latest outcome** (first Program's RegRefs clear) -/
+theorem latest_outcome_partial (free : String → Option V) (cmds : List (Cmd V))
+    (rest : List (Regs V × List (Cmd V))) (own' r : Regs V) (m : Nat)
+    (h : (runSegs free {} ((Regs.empty, cmds) :: rest)).fin = .ok r) :
+    runSegs free {} (((Regs.empty, cmds) :: rest) ++ [(own', [.use (.meas m)])]) =
+      (match lastOutcome m (((Regs.empty, cmds) :: rest).flatMap (·.2)) with
+       | some v => ⟨(runSegs free {} ((Regs.empty, cmds) :: rest)).trace ++ [v], .ok r⟩
+       | none => ⟨(runSegs free {} ((Regs.empty, cmds) :: rest)).trace, .error (.unmeasured m)⟩) := by
   rw [runSegs_fresh] at h ⊢
-  rw [runSegs_fresh, List.flatMap_append, runCmds_append, h]
+  rw [List.cons_append, runSegs_fresh, ← List.cons_append, List.flatMap_append, runCmds_append, h]
   have hr := runCmds_fin free Regs.empty r _ h m
   simp only [List.flatMap_cons, List.flatMap_nil, List.append_nil, runCmds, eval]
-  cases hl : lastOutcome m (segs.flatMap (·.2)) with
-  | some v => simp [hl] at hr; simp [hr]
-  | none => simp [hl, Regs.empty] at hr; simp [hr]
+  cases hl : lastOutcome m (cmds ++ rest.flatMap (·.2)) with
+  | some v => simp [List.flatMap_cons, hl] at hr; simp [hr]
+  | none => simp [List.flatMap_cons, hl, Regs.empty] at hr; simp [hr]
+
+/-- a Program whose RegRef 1 still holds 7 from an earlier computation, run first on a fresh
+engine: subsystem 1 is never measured, yet the operation is applied with 7 -/
+theorem latest_outcome_counterexample :
+    (runSegs (fun _ => none) {} [((fun k => if k = 1 then some (7 : Rat) else none), [.use (.meas 1)])]).trace = [7] ∧
+    lastOutcome 1 ([.use (.meas 1)] : List (Cmd Rat)) = none := by
+  decide +kernel
 
 /-- the same inside one program: the register after an error-free run holds the most recent outcome
 of every subsystem, and nothing for a subsystem never measured -/
@@ -192,19 +214,17 @@ example : eval exEnv (mergeP0 (.meas 1) (.free "a") false true) = .ok (7 / 2) :=
 
 /-- a history over three segments: measure 0 and 2, re-prepare 0, use q0, re-measure 0, use q0+q2 -/
 def hist : List (Regs Rat × List (Cmd Rat)) :=
-  [ (fun _ => some 99, [.measure [0, 2] [1 / 2, 5], .prepare 0, .use (.meas 0)]),
-    (Regs.empty, [.measure [0] [-3]]),
+  [ (Regs.empty, [.measure [0, 2] [1 / 2, 5], .prepare 0, .use (.meas 0)]),
+    (fun _ => some 99, [.measure [0] [-3]]),
     (fun _ => some 7, [.use (.add (.meas 0) (.meas 2))]) ]
 
 example : (runSegs (fun _ => none) {} hist).trace = [1 / 2, 2] := by decide +kernel
 example : lastOutcome 0 (hist.flatMap (·.2)) = some (-3) ∧ lastOutcome 2 (hist.flatMap (·.2)) = some 5 ∧
     lastOutcome 1 (hist.flatMap (·.2)) = (none : Option Rat) := by decide +kernel
 example : ∃ r, (runSegs (fun _ => none) {} hist).fin = .ok r := ⟨_, rfl⟩
--- subsystem 1 was never measured: the stale 99 / 7 in the Programs' own RegRefs are not used
-example : (runSegs (fun _ => none) {} (hist ++ [(fun _ => some 7, [.use (.meas 1)])])).fin
-    = .error (.unmeasured 1) := by
-  rw [latest_outcome (h := rfl)]
-  rfl
+-- subsystem 1 was never measured: the stale 99 / 7 in the later Programs' own RegRefs are not used
+example : (runSegs (fun _ => none) {} (hist ++ [(fun _ => some 7, [.use (.meas 1)])])).err
+    = some (.unmeasured 1) := by decide +kernel
 example : (bindParams (FreeTab.empty : FreeTab Rat) { owned := ["a", "b"] } [("a", 1), ("b", 2), ("a", 3)]).1.lookup "a" = some 3 := by
   decide +kernel
 example : (bindParams (FreeTab.empty : FreeTab Rat) { owned := ["a"] } [("a", 1), ("c", 2)]).2 = some (.unknown "c") := by
